@@ -931,10 +931,17 @@ class C11(Prop):
             "step: outcome class, children dicts, parent pointers, ci[uid] of every object compared real vs model, and the property's "
             "invariants evaluated on the real objects; on the final forest all 6 arch filters x 16 type subsets x recursive (+ 'self' "
             "queries on variants); the same after dumps()/loads(), whose deserialize add-history is replayed through the model; "
-            "non-trivial = distinct history with at least one accepted and (quick: usually) one refused add")
+            "non-trivial = distinct history with at least one accepted and (quick: usually) one refused add; "
+            "del stream (budget/4 further cases, harness/c11del.py): histories of 4-18 add / del steps - del by plain key and by dashed path (2 and 3 levels) "
+            "on the top-level container and on variants, missing names (no key, missing head, missing tail, '', '-', 'A-', near-miss spellings), del twice, "
+            "del then re-add (same place / elsewhere), add below a removed variant, del of a parent then lookups of the former children, UID of a dashed "
+            "top-level variant, a child's full UID asked of its parent, a child named like a top-level variant; after EVERY step the snapshot, the "
+            "designated entry, container[name] before the del and get_variants(recursive) compared real vs model, and the oracle (invariants; exactly the entry the "
+            "lookup names goes; removed subtree not returned / not found; raising del = KeyError, nothing changed)")
     assumptions = ["attributes of a Variant (id, uid, name, type, arches) are not written between add calls (the property quantifies over add histories)",
                    "Python's stable list.sort is modelled by a stable insertion sort; str comparison by code point",
-                   "RecursionError is modelled as running out of fuel (900 frames)"]
+                   "RecursionError is modelled as running out of fuel (900 frames)",
+                   "del: names are str; the delegation of __delitem__ gets len(name)+1 frames (it recurses once per dash), i.e. never hits the recursion limit"]
     partial = {
         "C11_inv_partial": "full Inv (parent/children mirror, one position per object, top-level UID alignment, top-level key = id or UID) is preserved by every add - accepted or refused, whatever the parent pointer of the argument - whose argument is not already filed under ANOTHER container object or key (AddOk). Still needed after the F13/F26 repair: add does not check it, and two Variant objects with one UID both accept the same child (F33, C11_two_parents_witness); explicit top-level keys are unchecked (F29). Unconditional part: C11_inv (InvW)",
         "C11_reachable_partial": "same hypothesis on every call of the history (OkRun); unconditional part: C11_reachable (InvW after ANY history)",
@@ -944,6 +951,7 @@ class C11(Prop):
         "C11_findable_inv_partial": "as C11_findable_partial with key/alignment facts taken from Inv",
         "C11_get_variants_strict_partial": "generic form: strict order and no duplicates from pairwise distinct UIDs of the result; discharged without hypothesis for every variant container (C11_get_variants_strict_below)",
         "C11_get_variants_strict_top_partial": "on the top-level container distinctness of UIDs across top-level subtrees (TopApart) is a hypothesis: add does not enforce it (F14; with F33 a variant is then still returned twice: C11_twice_witness)",
+        "C11_reachable_with_del_partial": "full Inv after any history of add / del when every ADD satisfies AddOk in the state it is made in (as C11_reachable_partial; nothing is asked of the dels); unconditional part: C11_reachable_with_del (InvW). C11_del_inv itself is unconditional for both invariants",
         "C11_get_variants_strict_dashless_partial": "TopApart derived from Inv when no top-level UID is dashed; with dashed top-level UIDs it stays a hypothesis (F14)",
     }
 
@@ -1104,6 +1112,12 @@ MANIFEST = dict(
          "parent pointers). False of the code and kept as known findings with predicates: F14 (dashed top-level UID may equal a child's UID), F33 (a variant already filed under "
          "one object is accepted by another object with the same UID), F27 (__getitem__ compares the relative path with full child UIDs: ci['A-A-C'] is A-C), F28 ('self' ignores "
          "the arch filter / raises on the top level), F29 (explicit top-level key unchecked). Repaired: F13, F26. Not modelled: attribute writes "
-         "between adds, __delitem__, the JSON writer/reader (the reloaded forest is tied by replaying deserialize's add history through the model); termination of "
-         "get_variants is not proved (results are stated for every fuel that suffices; running out of fuel = RecursionError).",
+         "between adds, the JSON writer/reader (the reloaded forest is tied by replaying deserialize's add history through the model); termination of "
+         "get_variants is not proved (results are stated for every fuel that suffices; running out of fuel = RecursionError). "
+         "del container[name] (VariantBase.__delitem__, Model/ForestDel.lean, hand-written, tied by the per-step differential of the del stream in harness/c11del.py): "
+         "C11_del_inv (InvW AND the full Inv survive every del, no hypothesis), C11_del_missing_keyerror (a raising del is a KeyError and changes nothing), C11_del_frame "
+         "(one entry of one dict goes, every other dict and EVERY parent pointer stay - the removed object keeps its stale pointer and its subtree), C11_del_removes_subtree "
+         "(under Inv: the removed variant and everything below it is unreachable from the top, returned by no get_variants, found by no lookup), C11_reachable_with_del / "
+         "_partial (any history of add / refused add / del / raising del). F48 (known): del has no UID scan, so del c[name] and c[name] can designate different variants "
+         "(C11_del_other_witness, C11_del_uid_keyerror_witness, C11_del_shadow_witness).",
     ref="7/C11")
